@@ -290,10 +290,13 @@ class Lexer:
 
             ([\w\.\:]+)   # keyword
 
-            ((?:\s+\w+|\s*=\s*|"[^"]*?"|'[^']*?'|\s*,\s*)*)  # attrname, = \
+            ((?:\s+\w+|\s*=|\s*"[^"]*?"|\s*'[^']*?'|\s*,)*)  # attrname, = \
                                                #        sign, string expression
                                                # comma is for backwards compat
                                                # identified in #366
+                                               # whitespace belongs to the
+                                               # token after it only, so that
+                                               # there is one way to match
 
             \s*     # more whitespace
 
